@@ -118,6 +118,7 @@ func (n *node) checkRetention(when string) {
 func H05_History() {
 	algos := []string{"epidemic", "spray", "binary_spray", "dtlsr", "prophet"}
 	n := newNode(algos[verif.Param("algo", 0)])
+	defer func() { n.c.Close() }()
 	depth := verif.Size("depth", 1, verif.Param("depth", 3))
 	submitted := 0
 	for step := 0; step < depth; step++ {
@@ -174,6 +175,7 @@ func H05_History() {
 // H05_SameMs: two application bundles created in the same millisecond are both retained.
 func H05_SameMs() {
 	n := newNode("epidemic")
+	defer n.c.Close()
 	for i := 0; i < 2; i++ {
 		payload := []byte{byte('A' + i)}
 		b := dataBundle("dtn://this/app", "dtn://far/inbox", 0)
